@@ -39,12 +39,15 @@ def hexDigit (n : Nat) : Char :=
 
 def toHex (bs : List UInt8) : String :=
   if bs.isEmpty then "-" else
-  -- (same convention as the harness: a run of >= 64 equal bytes is r<byte>:<count>)
+  String.ofList (bs.flatMap fun b => [hexDigit (b.toNat / 16), hexDigit (b.toNat % 16)])
+
+/-- data payloads: same convention as the harness (`hxd`): a run of >= 64 equal bytes is
+    written r<byte>:<count> -/
+def toHexD (bs : List UInt8) : String :=
   if bs.length ≥ 64 && bs.all (· == bs.head!) then
     let b := bs.head!
     s!"r{String.ofList [hexDigit (b.toNat / 16), hexDigit (b.toNat % 16)]}:{bs.length}"
-  else
-  String.ofList (bs.flatMap fun b => [hexDigit (b.toNat / 16), hexDigit (b.toNat % 16)])
+  else toHex bs
 
 def bitsOfBytes (bs : List UInt8) : List Bool :=
   bs.flatMap fun b => (List.range 8).map fun i => (b.toNat >>> i) % 2 == 1
